@@ -259,6 +259,17 @@ def case_discrete(case, res):
     iface = gs.LieselInterface(model)
     kernel.set_model(iface)
     state = model.state
+    changed = False
+    if case["idx"] % 2 == 1 and any(n_.name == "y" for n_ in nodes):
+        # the state handed to the kernel differs from what the model held when the kernel was built (new data and,
+        # where present, a new value of the latent parameter) - as in any engine run
+        upd = {"y": jnp.asarray(np.asarray(model.vars["y"].value) + rng.normal(0, 1.0, size=n).astype(np.float32)
+                               if "normal" in lik else rng.poisson(3.0, size=n).astype(np.float32))}
+        if "lat" in model.vars:
+            upd["lat"] = jnp.asarray(rng.normal(size=2).astype(np.float32) * 3.0)
+        state = iface.update_state(upd, state)
+        changed = True
+        res.ev("discrete_state_changed_after_kernel_built")
     # exact conditional from the model's own joint density
     lps = np.array([float(iface.log_prob(iface.update_state({"k": jnp.asarray(o)}, state))) for o in outcomes], np.float64)
     lps = np.where(np.isnan(lps), -np.inf, lps)
@@ -272,7 +283,7 @@ def case_discrete(case, res):
 
     draws = np.asarray(jax.jit(jax.vmap(one))(jax.random.split(jax.random.PRNGKey(case["draw_seed"]), N)))
     desc = {"prior": kind, "outcomes": outcomes.tolist(), "prior_probs": np.round(pr, 5).tolist(), "likelihood": lik, "n_obs": n,
-            "conditional": np.round(probs, 5).tolist(), "N": N}
+            "conditional": np.round(probs, 5).tolist(), "N": N, "state_changed_after_kernel_built": changed}
     st = {}
     res.mon("discrete_category_frequencies", len(outcomes))
     if not np.all(np.isin(draws, outcomes)):
